@@ -48,7 +48,7 @@ structure Row where
   b0 : Rat          -- g_i(x) = coefs·x + b0
   lo : EVal
   hi : EVal
-deriving Repr
+deriving Repr, DecidableEq
 
 structure Col where
   lb : EVal
